@@ -43,7 +43,7 @@ BOUNDS = {
 }
 OUTSIDE = ["keys with a user-defined combine other than the call-counting one used here; the real Unifier modules behind UnifierKey (stubbed)",
            "dependency values that are None (get_dependency treats a None result as 'not provided'), default_value None",
-           "whether a get that FAILED (KeyError / error from combine) locks the key: the docstring speaks of keys 'already read'; both outcomes accepted",
+           "whether a get_dependency that FAILED (KeyError / error from combine) locks the key (get_optional_dependency answering None is treated as a read): the docstring speaks of keys 'already read'; both outcomes accepted",
            "aliasing: ListKey.combine hands out the manager's internal list, so a list obtained earlier grows when a non-locking key is extended later",
            "DependencyContext (the stack of managers)", "histories longer than the bound for the black-box part (the inductive step covers the state invariant only)"]
 ASSUMES = ["dependency values and default values are opaque, non-None objects (pysym proxies)",
@@ -495,6 +495,11 @@ def _ind_body(cfg):
                 ob.append(("a successful get locks the key iff lock_on_get", bv(post["locked"] == (lock or sk["locked"]))))
             else:
                 ob.append(("a failed get never locks a key without lock_on_get", bv(lock or not post["locked"])))
+                if op != "get" and not sk["cached"] and exp[0] == "missing":
+                    # get_optional_dependency answered "absent" (returned None, no error): that IS a read of the key, so a
+                    # locking key must be locked afterwards - otherwise a later add makes later readers see another answer.
+                    # (For get_dependency, which RAISES in this situation, both outcomes stay accepted.)
+                    ob.append(("get_optional_dependency that answers 'absent' locks the key iff lock_on_get", bv(post["locked"] == (lock or sk["locked"]))))
         if kind == "counting":
             ob.append(("combine is called exactly when the result is not served from the cache", bv(calls.get(0, 0) == ncalls_exp)))
         # ---- the post-state satisfies the invariant again (cache never stale)
